@@ -13,6 +13,13 @@ open Ariadne Ariadne.Gql Ariadne.ResultTypes Ariadne.Util Ariadne.C01Plain
 
 /-! ### shapes -/
 
+theorem flatMap_congr' {α β : Type} : ∀ (l : List α) (f g : α → List β), (∀ a ∈ l, f a = g a) → l.flatMap f = l.flatMap g
+  | [], _, _, _ => rfl
+  | a :: l, f, g, h => by
+    simp only [List.flatMap_cons, h a List.mem_cons_self,
+      flatMap_congr' l f g (fun b hb => h b (List.mem_cons_of_mem _ hb))]
+
+
 def isSpread : Selection → Bool
   | .spread .. => true
   | _ => false
@@ -22,6 +29,22 @@ theorem mLocal_iff (env : Env) (k : Nat) (cn tn : String) (sel : List Selection)
   induction sel with
   | nil => simp [mLocal]
   | cons s rest ih => simp [mLocal, ih]
+
+theorem sidFree_iff (M : List Nat) (sel : List Selection) :
+    sidFree M sel = true ↔ ∀ s ∈ sel, sidFree1 M s = true := by
+  induction sel with
+  | nil => simp [sidFree]
+  | cons s rest ih => simp [sidFree, ih]
+
+mutual
+  theorem sidFree_nil : ∀ sel : List Selection, sidFree [] sel = true
+    | [] => by simp [sidFree]
+    | s :: rest => by simp [sidFree, sidFree1_nil s, sidFree_nil rest]
+  theorem sidFree1_nil : ∀ s : Selection, sidFree1 [] s = true
+    | .field _ _ _ _ sub => by simp [sidFree1, sidFree_nil sub]
+    | .spread _ _ => by simp [sidFree1]
+    | .inline _ _ _ sub => by simp [sidFree1, sidFree_nil sub]
+end
 
 theorem mLocal1_shape {env : Env} {k : Nat} {cn tn : String} {s : Selection} (h : mLocal1 env k cn tn s = true) :
     isField s = true ∨ isSpread s = true := by
@@ -171,15 +194,17 @@ theorem mExtra1_leaf (env : Env) (cn tn : String) (alias : Option String) (name 
 
 def GenSpec (env : Env) (k : Nat) (f : Nat) : Prop :=
   ∀ (cn tn : String) (sid : Nat) (sel : List Selection) (tv : List String) (st : St),
-    gfuel sel ≤ f → st.marks = [] → env.schema.kindOf? tn = some .object → mLocal env k cn tn sel = true →
+    gfuel sel ≤ f → st.marks.contains sid = false → sidFree st.marks sel = true →
+    env.schema.kindOf? tn = some .object → mLocal env k cn tn sel = true →
     ((mClass env cn tn sel).map (·.name)).Nodup →
     (∀ n ∈ (mClass env cn tn sel).map (·.name), n ∉ st.publicNames) →
     ∃ st', parseTypeDefinition env f cn tn sid sel false [] tv st = .ok (mClass env cn tn sel, st') ∧
-      st'.publicNames = st.publicNames ++ (mClass env cn tn sel).map (·.name) ∧ st'.marks = [] ∧ st'.unpacked = st.unpacked
+      st'.publicNames = st.publicNames ++ (mClass env cn tn sel).map (·.name) ∧ st'.marks = st.marks ∧
+      st'.unpacked = st.unpacked
 
 theorem fieldBody_mix (env : Env) (k : Nat) (f : Nat) (IH : GenSpec env k f) (cn tn : String) (tv : List String)
     (alias : Option String) (name : String) (dirs : List Directive) (sid : Nat) (sub : List Selection)
-    (acc : FAcc) (s : St) (hmarks : s.marks = [])
+    (acc : FAcc) (s : St) (hfree : sidFree1 s.marks (.field alias name dirs sid sub) = true)
     (hl : mLocal1 env k cn tn (.field alias name dirs sid sub) = true)
     (hfuel : gfuel1 (.field alias name dirs sid sub) ≤ f + 2)
     (hnd : ((mExtra1 env cn tn (.field alias name dirs sid sub)).map (·.name)).Nodup)
@@ -188,7 +213,7 @@ theorem fieldBody_mix (env : Env) (k : Nat) (f : Nat) (IH : GenSpec env k f) (cn
         .ok (.yield (acc.1 ++ [fieldDecl env cn tn alias name dirs sub],
                      acc.2 ++ mExtra1 env cn tn (.field alias name dirs sid sub)), s') ∧
       s'.publicNames = s.publicNames ++ (mExtra1 env cn tn (.field alias name dirs sid sub)).map (·.name) ∧
-      s'.marks = [] ∧ s'.unpacked = s.unpacked := by
+      s'.marks = s.marks ∧ s'.unpacked = s.unpacked := by
   simp only [mLocal1, Bool.and_eq_true] at hl
   obtain ⟨⟨⟨hname, hmix⟩, hfd⟩, hcase⟩ := hl
   have hmix' : (dirs.any (·.name == Tables.mixinName)) = false := by simpa using hmix
@@ -197,7 +222,7 @@ theorem fieldBody_mix (env : Env) (k : Nat) (f : Nat) (IH : GenSpec env k f) (cn
   · rw [if_pos hsub] at hcase
     obtain ⟨ctx, hpo⟩ := parseOperationField_leaf env (f + 1 + 1) name dirs sub (fieldT env tn name)
       (subClass env cn alias name) tv hname hcase
-    refine ⟨bump s ctx, ?_, ?_, hmarks, rfl⟩
+    refine ⟨bump s ctx, ?_, ?_, rfl, rfl⟩
     · unfold fieldBody
       refine run_bind (a := fieldT env tn name) (s' := s) (by show ResultTypes.liftExcept (fieldTypeFromSchema env tn name) s = _; rw [hT]; rfl) ?_
       refine run_bind (s' := s) (by
@@ -221,9 +246,10 @@ theorem fieldBody_mix (env : Env) (k : Nat) (f : Nat) (IH : GenSpec env k f) (cn
       (subClass env cn alias name) tv hname hkind
     rw [mExtra1_sub _ _ _ _ _ _ _ _ hsub'] at hnd hfresh ⊢
     have hfu : gfuel sub ≤ f := by simp only [gfuel1] at hfuel; omega
+    simp only [sidFree1, hsub', Bool.false_or, Bool.and_eq_true, Bool.not_eq_true'] at hfree
     obtain ⟨s1, hrun, hpn, hmk, hup⟩ := IH (subClass env cn alias name) (subType env tn name) sid sub
       (((typenameValues env [(subClass env cn alias name, subType env tn name)]).find?
-        (·.1 == subType env tn name)).map (·.2) |>.getD []) s hfu hmarks hkind hrec hnd hfresh
+        (·.1 == subType env tn name)).map (·.2) |>.getD []) s hfu hfree.1 hfree.2 hkind hrec hnd hfresh
     refine ⟨bump s1 { related := [(subClass env cn alias name, subType env tn name)] }, ?_, hpn, hmk, hup⟩
     unfold fieldBody
     refine run_bind (a := fieldT env tn name) (s' := s) (by show ResultTypes.liftExcept (fieldTypeFromSchema env tn name) s = _; rw [hT]; rfl) ?_
@@ -246,20 +272,20 @@ theorem fieldBody_mix (env : Env) (k : Nat) (f : Nat) (IH : GenSpec env k f) (cn
     rfl
 
 theorem fieldLoop_mix (env : Env) (k : Nat) (f : Nat) (IH : GenSpec env k f) (cn tn : String) (tv : List String) :
-    ∀ (fl : List Selection) (acc : FAcc) (s : St), s.marks = [] →
+    ∀ (fl : List Selection) (acc : FAcc) (s : St), (∀ x ∈ fl, sidFree1 s.marks x = true) →
       (∀ x ∈ fl, isField x = true ∧ mLocal1 env k cn tn x = true) →
       (∀ x ∈ fl, gfuel1 x ≤ f + 2) →
       ((fl.flatMap (mExtra1 env cn tn)).map (·.name)).Nodup →
       (∀ n ∈ (fl.flatMap (mExtra1 env cn tn)).map (·.name), n ∉ s.publicNames) →
       ∃ s', forIn (fl.map toR) acc (fieldBody env (f + 1) cn tn tv) s =
           .ok ((acc.1 ++ plainDecls env cn tn fl, acc.2 ++ fl.flatMap (mExtra1 env cn tn)), s') ∧
-        s'.publicNames = s.publicNames ++ (fl.flatMap (mExtra1 env cn tn)).map (·.name) ∧ s'.marks = [] ∧
+        s'.publicNames = s.publicNames ++ (fl.flatMap (mExtra1 env cn tn)).map (·.name) ∧ s'.marks = s.marks ∧
         s'.unpacked = s.unpacked := by
   intro fl
   induction fl with
   | nil =>
     intro acc s hmk _ _ _ _
-    exact ⟨s, by simp [plainDecls]; rfl, by simp, hmk, rfl⟩
+    exact ⟨s, by simp [plainDecls]; rfl, by simp, rfl, rfl⟩
   | cons x rest ih =>
     intro acc s hmk hloc hfu hnd hfresh
     obtain ⟨hxf, hx⟩ := hloc x List.mem_cons_self
@@ -269,10 +295,12 @@ theorem fieldLoop_mix (env : Env) (k : Nat) (f : Nat) (IH : GenSpec env k f) (cn
     | field alias name dirs sid sub =>
       simp only [List.flatMap_cons, List.map_append] at hnd hfresh
       obtain ⟨hnd1, hnd2, hdisj⟩ := List.nodup_append.mp hnd
-      obtain ⟨s1, hstep, hpn1, hmk1, hup1⟩ := fieldBody_mix env k f IH cn tn tv alias name dirs sid sub acc s hmk hx
+      obtain ⟨s1, hstep, hpn1, hmk1, hup1⟩ := fieldBody_mix env k f IH cn tn tv alias name dirs sid sub acc s
+        (hmk _ List.mem_cons_self) hx
         (hfu _ List.mem_cons_self) hnd1 (fun n hn => hfresh n (List.mem_append_left _ hn))
       obtain ⟨s2, hrest, hpn2, hmk2, hup2⟩ := ih
-        (acc.1 ++ [fieldDecl env cn tn alias name dirs sub], acc.2 ++ mExtra1 env cn tn (.field alias name dirs sid sub)) s1 hmk1
+        (acc.1 ++ [fieldDecl env cn tn alias name dirs sub], acc.2 ++ mExtra1 env cn tn (.field alias name dirs sid sub)) s1
+        (fun y hy => by rw [hmk1]; exact hmk y (List.mem_cons_of_mem _ hy))
         (fun y hy => hloc y (List.mem_cons_of_mem _ hy))
         (fun y hy => hfu y (List.mem_cons_of_mem _ hy)) hnd2
         (fun n hn => by
@@ -281,7 +309,7 @@ theorem fieldLoop_mix (env : Env) (k : Nat) (f : Nat) (IH : GenSpec env k f) (cn
           rcases List.mem_append.mp hmem with h | h
           · exact hfresh n (List.mem_append_right _ hn) h
           · exact hdisj _ h _ hn rfl)
-      refine ⟨s2, ?_, ?_, hmk2, by rw [hup2, hup1]⟩
+      refine ⟨s2, ?_, ?_, by rw [hmk2, hmk1], by rw [hup2, hup1]⟩
       · simp only [List.map_cons, toR]
         rw [List.forIn_cons]
         refine run_bind hstep ?_
@@ -300,22 +328,18 @@ theorem gen_spec (env : Env) (k : Nat) (hfr : FragsOK env k) : ∀ f : Nat, GenS
   | 1 => by
     intro cn tn sid sel tv st hfu; have := gfuel_ge sel; omega
   | f + 2 => by
-    intro cn tn sid sel tv st hfu hmarks hkind hloc hnd hfresh
-    obtain ⟨pn, ue, us, mx, up, mi, mk, dr⟩ := st
-    simp only at hmarks
-    subst hmarks
+    intro cn tn sid sel tv st hfu hmark hfree hkind hloc hnd hfresh
     have IH := gen_spec env k hfr f
     have hlocs := (mLocal_iff env k cn tn sel).mp hloc
+    have hfrees := (sidFree_iff st.marks sel).mp hfree
     simp only [mClass, List.map_cons, List.nodup_cons] at hnd
-    simp only at hfresh
-    have hcn : pn.contains cn = false := by
+    have hcn : st.publicNames.contains cn = false := by
       have := hfresh cn (by simp [mClass])
       simpa using this
-    have hres := resolve_mix env k hfr (f + 1) cn tn hkind sel
-      { publicNames := pn ++ [cn], usedEnums := ue, usedScalars := us, mixins := mx, unpacked := up, mixinImports := mi, marks := [], dropped := dr } hlocs
+    have hres := resolve_mix env k hfr (f + 1) cn tn hkind sel { st with publicNames := st.publicNames ++ [cn] } hlocs
     obtain ⟨s', hloop, hpn, hmk, hup⟩ := fieldLoop_mix env k f IH cn tn tv (sel.filter isField) ([], [])
-      { publicNames := pn ++ [cn], usedEnums := ue, usedScalars := us, mixins := setUnion mx (spreadNames sel), unpacked := up,
-        mixinImports := mi, marks := [], dropped := dr } rfl
+      { st with publicNames := st.publicNames ++ [cn], mixins := setUnion st.mixins (spreadNames sel) }
+      (fun x hx => hfrees x (List.mem_filter.mp hx).1)
       (fun x hx => ⟨(List.mem_filter.mp hx).2, hlocs x (List.mem_filter.mp hx).1⟩)
       (fun x hx => Nat.le_trans (gfuel_filter sel x hx) hfu)
       (by rw [mExtra_filter]; exact hnd.2)
@@ -328,12 +352,12 @@ theorem gen_spec (env : Env) (k : Nat) (hfr : FragsOK env k) : ∀ f : Nat, GenS
           exact hnd.1 (this ▸ hn))
     refine ⟨s', ?_, ?_, hmk, hup⟩
     · rw [parseTypeDefinition_succ]
-      refine run_bind (run_get _) ?_
+      refine run_bind (run_get st) ?_
       simp only [hcn, Bool.false_eq_true, if_false]
       refine run_bind (run_modify _ _) ?_
       refine run_bind hres ?_
       refine run_bind (run_get _) ?_
-      simp only [List.contains_nil, Bool.false_eq_true, if_false, Bool.false_and]
+      simp only [hmark, Bool.false_eq_true, if_false, Bool.false_and]
       unfold classTail
       refine run_bind hloop ?_
       simp [run_pure, mClass, basesOf, plainDecls_filter, mExtra_filter]
